@@ -12,7 +12,8 @@ PyatvModel/C18/Lemmas.lean `absRun_sound`, one induction over scripts).
 * `released_on_return`        scripts with `ReleasesOnReturn` (the two streams) also hold nothing
                               after a normal return;
 * `connect_bracketed`, `streamFile_bracketed`, `playUrl_bracketed`
-                              the concrete scripts of the (repaired) code satisfy the predicate;
+                              the concrete scripts of the (repaired) code satisfy the predicate (connect: for every
+                              list of protocols, by induction);
 * `connect_leak_free`, `stream_file_leak_free`, `play_url_leak_free`
                               the property for the three operations, in its own words;
 * `refused_does_not_disturb`, `stream_refused_while_active`, `play_refused_while_taken_over`
@@ -90,18 +91,13 @@ example : ReleasesOnReturn true (playUrl true) = true ∧
 
 /-! ### the concrete scripts satisfy the discipline -/
 
-/-- all sub-lists (order kept) — the protocol subsets of the property's quantifier -/
-def subsets : List Nat → List (List Nat)
-  | [] => [[]]
-  | x :: xs => (subsets xs).map (x :: ·) ++ subsets xs
-
 /-- indices of `PROTOCOLS` (regenerated from the source tree) -/
 def allProtocols : List Nat := List.range PyatvModel.Gen.C18.protocols.length
 
-theorem connect_bracketed :
-    ∀ ps ∈ subsets allProtocols, Bracketed false (connectScript ps) = true := by decide +kernel
-
-example : [0, 2, 4] ∈ subsets allProtocols := by decide
+/-- pyatv.connect satisfies the discipline for EVERY list of enabled protocols (any number,
+    any order) — by induction over the list (`connectScript_bracketed`), not enumeration. -/
+theorem connect_bracketed (ps : List Nat) : Bracketed false (connectScript ps) = true :=
+  connectScript_bracketed ps
 
 theorem streamFile_bracketed : ∀ v m, Bracketed true (streamFile v m) = true ∧
     ReleasesOnReturn true (streamFile v m) = true := by decide +kernel
@@ -114,12 +110,13 @@ theorem playUrl_bracketed : ∀ l, Bracketed true (playUrl l) = true ∧
 /-- connect(): whichever protocol subset is enabled and whichever protocol's connect()
     fails, every connection established before it is closed, no task is left, the session
     is closed. -/
-theorem connect_leak_free (ps : List Nat) (hps : ps ∈ subsets allProtocols) (k : Nat)
+theorem connect_leak_free (ps : List Nat) (k : Nat)
     (hfail : (run (some (k, .fail)) (connectScript ps) (start [])).2 ≠ .ok) :
     (run (some (k, .fail)) (connectScript ps) (start [])).1.ledger = [] :=
-  (leak_free false _ (connect_bracketed ps hps) [] _ (fun _ h => by cases h) hfail).2.2
+  (leak_free false _ (connect_bracketed ps) [] _ (fun _ h => by cases h) hfail).2.2
 
-example : (run (some (1, .fail)) (connectScript [0, 2, 4]) (start [])).2 ≠ .ok := by decide
+example : (run (some (1, .fail)) (connectScript [0, 2, 4]) (start [])).2 ≠ .ok ∧
+    (run (some (4, .fail)) (connectScript allProtocols) (start [])).2 ≠ .ok := by decide
 
 /-- stream_file: failure or cancellation at ANY collaborator call, or a refusal, in ANY
     environment (other streams active, takeovers held by other protocols): the ledger is
